@@ -59,7 +59,7 @@ def obligations(tier):
                       claim='every state / context-state object that was in a table before the commit still has exactly its old '
                             'content afterwards (transactions replace table objects, they never modify them in place) - the '
                             'premise under which collecting references inside mdib_lock and serialising them later is a snapshot'))
-    kinds = KINDS[:3] if tier == 'quick' else KINDS
+    kinds = KINDS[:3] if tier == 'quick' else KINDS + ['waveform']
     for h in HANDLERS:
         for kd in kinds:
             for nw in ((1,) if tier == 'quick' else (1, 2)):
@@ -67,6 +67,21 @@ def obligations(tier):
                               params={'handler': h, 'kind': kd, 'writers': nw}, functions=F, stubs=STUBS,
                               bounds=f'1 {h} request x {nw} committing {kd} transaction(s); all interleavings of the recorded events',
                               claim='no interleaving lets the response combine data of different MdibVersions / carry a wrong version'))
+    if tier == 'thorough':
+        # requests that select by handle (other code path in the handlers) and writers of two different kinds
+        for h in ('GetMdState', 'GetContextStates', 'GetMdDescription'):
+            for sel in ('touched', 'mds', 'unknown'):
+                for kd in ('metric', 'context', 'descriptor'):
+                    obs.append(Ob(f'C07.{h}[{sel}].vs.{kd}.w1', 'checks.C07', 'ob_snapshot', kind='py', timeout=240,
+                                  params={'handler': h, 'kind': kd, 'writers': 1, 'select': sel}, functions=F, stubs=STUBS,
+                                  bounds=f'1 {h} request with a HandleRef list ({sel}) x 1 committing {kd} transaction',
+                                  claim='same, for the handle-selecting code path of the handler'))
+        for h in HANDLERS:
+            for k1, k2 in (('metric', 'context'), ('descriptor', 'metric'), ('context', 'descriptor'), ('alert', 'component')):
+                obs.append(Ob(f'C07.{h}.vs.{k1}+{k2}', 'checks.C07', 'ob_snapshot', kind='py', timeout=240,
+                              params={'handler': h, 'kind': k1, 'kind2': k2, 'writers': 2}, functions=F, stubs=STUBS,
+                              bounds=f'1 {h} request x 2 committing transactions of different kinds ({k1}, {k2})',
+                              claim='same with two concurrent writers of different kinds'))
     return obs
 
 
@@ -84,7 +99,7 @@ def _build():
     return rec, dev
 
 
-def _mk_req(dev, service, method):
+def _mk_req(dev, service, method, handle_refs=()):
     from lxml import etree
     from sdc11073.dispatch.request import RequestData
     from sdc11073.pysoap.msgfactory import CreatedMessage
@@ -96,21 +111,39 @@ def _mk_req(dev, service, method):
     env = Soap12Envelope(nsm.partial_map(nsm.S12, nsm.WSA, nsm.MSG))
     env.set_header_info_block(HeaderInformationBlock(action=action, addr_to='123'))
     env.payload_element = etree.Element(nsm.MSG.tag(method))
+    for href in handle_refs:
+        etree.SubElement(env.payload_element, nsm.MSG.tag('HandleRef')).text = href
     req = RequestData({}, '123', 'foo')
     req.message_data = dev.msg_reader.read_received_message(dev.msg_factory.serialize_message(CreatedMessage(env, dev.msg_factory)))
     return req
 
 
-def _reader(dev, handler):
+def _handle_refs(dev, select, kind):
+    if not select:
+        return ()
+    mdib = dev.mdib
+    pmn = mdib.data_model.pm_names
+    if select == 'unknown':
+        return ('no-such-handle',)
+    if select == 'mds':
+        return (sorted(d.Handle for d in mdib.descriptions.NODETYPE.get(pmn.MdsDescriptor))[0],)
+    # the handle the writer of this kind touches
+    if kind == 'context':
+        return (sorted(d.Handle for d in mdib.descriptions.NODETYPE.get(pmn.LocationContextDescriptor))[0],)
+    return (sorted(d.Handle for d in mdib.descriptions.NODETYPE.get(pmn.NumericMetricDescriptor))[0],)
+
+
+def _reader(dev, handler, select=None, kind=None):
     gs = dev.hosted_services.get_service
     cs = dev.hosted_services.context_service
+    refs = _handle_refs(dev, select, kind)
     if handler == 'GetMdib':
         return lambda: gs._on_get_mdib(_mk_req(dev, 'GetService', 'GetMdib'))
     if handler == 'GetMdState':
-        return lambda: gs._on_get_md_state(_mk_req(dev, 'GetService', 'GetMdState'))
+        return lambda: gs._on_get_md_state(_mk_req(dev, 'GetService', 'GetMdState', refs))
     if handler == 'GetMdDescription':
-        return lambda: gs._on_get_md_description(_mk_req(dev, 'GetService', 'GetMdDescription'))
-    return lambda: cs._on_get_context_states(_mk_req(dev, 'ContextService', 'GetContextStates'))
+        return lambda: gs._on_get_md_description(_mk_req(dev, 'GetService', 'GetMdDescription', refs))
+    return lambda: cs._on_get_context_states(_mk_req(dev, 'ContextService', 'GetContextStates', refs))
 
 
 def _writer(dev, kind, marker):
@@ -216,12 +249,12 @@ def ob_snapshot(ctx):
     t0 = time.time()
     rec, dev = _build()
     mdib = dev.mdib
-    reader = _reader(dev, p['handler'])
+    reader = _reader(dev, p['handler'], p.get('select'), p['kind'])
     nw = p['writers']
     # --- record templates from the real code (single-threaded)
     templates = {'R': rec.record(reader)}
     for i in range(nw):
-        templates[f'W{i}'] = rec.record(_writer(dev, p['kind'], i + 1))
+        templates[f'W{i}'] = rec.record(_writer(dev, p['kind2'] if (i == 1 and p.get('kind2')) else p['kind'], i + 1))
     sizes = {k: len(v) for k, v in templates.items()}
     s, order = sched.encode(templates)
     queries = 1
@@ -258,7 +291,7 @@ def ob_snapshot(ctx):
 def _replay(rec, dev, p, schedule):
     """Run reader + writers as real threads gated to `schedule`; compare the response with the reference of its version."""
     mdib = dev.mdib
-    reader = _reader(dev, p['handler'])
+    reader = _reader(dev, p['handler'], p.get('select'), p['kind'])
     refs = {}
 
     def take_ref():
@@ -274,7 +307,7 @@ def _replay(rec, dev, p, schedule):
     acts = {'R': reader}
     base = max(refs) if refs else 0
     for i in range(p['writers']):
-        acts[f'W{i}'] = _writer(dev, p['kind'], 100 + base + i)
+        acts[f'W{i}'] = _writer(dev, p['kind2'] if (i == 1 and p.get('kind2')) else p['kind'], 100 + base + i)
     rec.start_replay(schedule)
     results, errors = rec.run_threads(acts)
     mdib.post_commit_handler = None
